@@ -40,7 +40,7 @@ print('3b net moved between two assignments :', cmp(a, b))
 # 4 renamed element -> StopIteration
 a, b = build(), build(); b.libraries[0].definitions[0].ports[0].name = 'zz'
 print('4 port renamed on copy               :', cmp(a, b))
-# 5 identical copies that were not accepted (repaired: 2243c09, 62eff9e, 814f5eb)
+# 5 identical copies that were not accepted (repaired: 57b99ec, 4f7bd74, f4be0be)
 x = lambda n, lib, leaf, leaf2, top, u0, u1, c: (top.create_port(name='ab', pins=1), top.create_port(name='a*', pins=1))
 print('5 siblings ab and a* (self)          :', cmp(build(x), build(x)))
 x = lambda n, lib, leaf, leaf2, top, u0, u1, c: top.create_child(name='SDN_Assignment_7', reference=leaf)
